@@ -162,6 +162,9 @@ func runC14(t *testing.T, rng *verifsim.RNG, col *verifsim.Collector, variant in
 		relayAddr := relay.LocalAddr().(*net.UDPAddr)
 		peers := []*net.UDPAddr{{IP: net.IPv4(10, 1, 0, 1), Port: 7000}, {IP: net.IPv4(10, 1, 0, 2), Port: 7000}, {IP: net.IPv4(10, 1, 0, 2), Port: 7001}}
 		npeers := 1 + variant%3
+		if variant >= 8 {
+			npeers = 0 // no peer at all: the allocation refresher is the only periodic transaction (and the only one to meet a stale nonce)
+		}
 		// reader
 		var rmu sync.Mutex
 		got := map[string]bool{}
@@ -190,14 +193,14 @@ func runC14(t *testing.T, rng *verifsim.RNG, col *verifsim.Collector, variant in
 			probe := !idle || m%17 == 0 || m > minutes-3
 			c2p, p2c := true, true
 			// well after the first nonce has gone stale, the application writes once to a new peer and then only listens to it
-			if m == 61 && npeers < len(peers) {
+			if m == 61 && npeers < len(peers) && variant < 8 {
 				time.Sleep(2 * time.Second) // just past the instant the first nonce goes stale, before any periodic refresh notices
 				if _, err := relay.WriteTo([]byte("late-hello"), peers[npeers]); err != nil {
 					c2p = false
 				}
 				synctest.Wait()
 			}
-			if m > 61 && npeers < len(peers) {
+			if m > 61 && npeers < len(peers) && variant < 8 {
 				pl3 := fmt.Sprintf("late-p2c-%d", m)
 				if rc := w.sim.Lookup(relayAddr.String()); rc != nil {
 					rc.Inject(peers[npeers], []byte(pl3))
@@ -312,10 +315,10 @@ func TestVerif_C14(t *testing.T) {
 	col := verifsim.NewCollector("C14", "C14Check")
 	col.PerFile = 400
 	hours := 3
-	variants := []int{0, 1, 2, 3}
+	variants := []int{0, 1, 2, 3, 8}
 	if verifsim.Thorough() {
 		hours = 6
-		variants = []int{0, 1, 2, 3, 4, 5, 1, 3, 5, 7}
+		variants = []int{0, 1, 2, 3, 4, 5, 1, 3, 5, 7, 8, 9}
 	}
 	for _, v := range variants {
 		runC14(t, rng, col, v, hours)
